@@ -205,8 +205,12 @@ def check_callable(ctx: Ctx, fn: FuncInfo):
                   f'the callable evaluates {C.fmt(c.d.get("recv"))}.Calculate, not the solver\'s problem',
                   key=f'{rid}::{fn.short}::same-problem')
         a = c.d['args']
-        pt = C.new_event_of(p, a[0]) if a else None
-        ok_pt = pt is not None and pt.d['cls'].name == 'Point' and pt.d['args'] and key_of(pt.d['args'][0]) == key_of(y)
+        a0 = C.arg(c, 0, 'point')
+        a1 = C.arg(c, 1, 'functionValue')
+        a = [x for x in (a0, a1) if x is not None]
+        pt = C.new_event_of(p, a0) if a0 is not None else None
+        pc = C.arg(pt, 0, 'floatVariables') if pt is not None else None
+        ok_pt = pt is not None and pt.d['cls'].name == 'Point' and pc is not None and key_of(pc) == key_of(y)
         ctx.check(ok_pt, rid, fn.short, fn.loc(c.node), 'the objective is evaluated at the optimiser\'s own argument',
                   'the callable does not evaluate the objective at the point the optimiser passed in',
                   key=f'{rid}::{fn.short}::at-argument')
